@@ -777,6 +777,18 @@ End Run2.
 (* as scase; both configurations start as the schema builds them; the observation is of the second *)
 Definition scase2 := (bool * list path * snode * list sop2 * option path)%type.
 
+(* the constructor route for a saved tree: schema(key_filename=K, **tree).  Config.__init__ names the key file
+   first, then `_set_value`s every keyword: a map under a sub-configuration key / a list of maps is loaded
+   exactly as load_tree loads it (new object, parent = the configuration under construction); a SecureField
+   keyword is an ASSIGNMENT (validated, not converted: an encrypted map is refused there), so the harness hands
+   the root's own secrets over as plaintext.  For the model this is load_tree of the document whose root-level
+   secrets are the plaintexts. *)
+Definition ctor_doc (t : snode) (d : rtree) : rtree :=
+  match d with
+  | RMap es => RMap (map (fun ns => (fst ns, plain_sec (snd ns))) (secs_of t) ++ skipn (length (secs_of t)) es)
+  | _ => d
+  end.
+
 Definition observe_secrets (aes : bool) (t : snode) (fs : list (path * bytes)) (root2 : option path) : pyval :=
   let r := render aes toy_enc toy_b64 toy_key fs kf_default t in
   let fs1 := fs_after toy_key fs (snd r) in
@@ -786,6 +798,13 @@ Definition observe_secrets (aes : bool) (t : snode) (fs : list (path * bytes)) (
            PBool (known_F34 t);
            doc_shape (fst r);
            match load_tree aes toy_dec toy_unb64 toy_key fs1 tg (fst r) with
+           | Ok (t', ops') =>
+               if rtree_eqb (plain t') (plain t)
+               then PTuple [o_str "same"; o_effects (effects toy_key fs1 ops')]
+               else o_str "broken"
+           | _ => o_str "broken"
+           end;
+           match load_tree aes toy_dec toy_unb64 toy_key fs1 tg (ctor_doc t (fst r)) with
            | Ok (t', ops') =>
                if rtree_eqb (plain t') (plain t)
                then PTuple [o_str "same"; o_effects (effects toy_key fs1 ops')]
